@@ -3,7 +3,7 @@
    text (DEFINITION without its final period, ACCESSION, VERSION, COMMENT and
    the extra fields all go through it). *)
 From Coq Require Import List ZArith Lia Bool.
-From GTS Require Import Base Arith Pars Insdc GenBank BaseLemmas ParsLemmas FastaProofs BodyRT ParsSpec ModRT.
+From GTS Require Import Base Arith Pars Insdc GenBank BaseLemmas ParsLemmas FastaProofs BodyRT ParsSpec ModRT LocusRT.
 Import ListNotations.
 Open Scope Z_scope.
 
@@ -267,4 +267,57 @@ Proof.
   exists s'. split; [|split; assumption].
   unfold joined in E. cbn [map concat] in E. rewrite app_nil_r in E. rewrite (add_prefix_noeol v _ Hv) in E.
   unfold p_accession. rewrite <- E. f_equal. f_equal. rewrite <- !app_assoc. reflexivity.
+Qed.
+
+(* an extra field: the name is whatever run of capitals starts the line *)
+Lemma field_name_word_reads name depth post o e a fr k :
+  name <> [] -> Forall (fun c => is_upper c = true) name -> zlen name < depth ->
+  exists o' e', field_name_parser (pWord is_upper) depth
+                  (mkst (name ++ repeat_byte 32 (depth - zlen name) ++ post) o e a (fr :: k)) =
+                (Ok (name, 0), mkst post o' e' (a + depth) (fr :: k)).
+Proof.
+  intros Hne Hup Hd. unfold field_name_parser.
+  set (pad := repeat_byte 32 (depth - zlen name)).
+  assert (Hpad : exists pt, pad = 32 :: pt).
+  { unfold pad, repeat_byte. destruct (Z.to_nat (depth - zlen name)) eqn:E; [lia|]. cbn [repeat]. eexists; reflexivity. }
+  destruct Hpad as (pt & Epad).
+  assert (W : okp (pWord is_upper) name (pad ++ post) name).
+  { apply pWord_okp; [exact Hne|exact Hup|]. rewrite Epad. reflexivity. }
+  destruct (W o e a fr k) as (o1 & e1 & E1).
+  rewrite (bind_ok _ _ _ name _ E1).
+  destruct (Z.ltb_spec (depth - zlen name) 0); [lia|].
+  assert (Hany : okp (pAny [pBytes pad;;; ret 0; (e0 <-- pDry pEOL;;; ret (zlen e0))]) pad post 0).
+  { apply pAny_okp, anyl_here. exact (okp_ret (pBytes pad) (fun _ : unit => 0) pad post tt (pBytes_okp pad post)). }
+  destruct (Hany o1 e1 (a + zlen name) fr k) as (o2 & e2 & H2).
+  fold pad. rewrite (bind_ok _ _ _ (Some 0, EOther) _ (try_ok _ _ _ _ H2)).
+  exists o2, e2. unfold ret. f_equal. f_equal.
+  assert (zlen pad = depth - zlen name).
+  { unfold pad, repeat_byte. unfold zlen in *. rewrite repeat_length. lia. }
+  lia.
+Qed.
+
+Theorem p_extra_roundtrip depth a name l0 ls post o e ap fr k :
+  name <> [] -> Forall (fun c => is_upper c = true) name -> zlen name < depth ->
+  no_eol l0 -> Forall no_eol ls -> is_prefix (repeat_byte 32 depth) post = false ->
+  exists s', p_extra depth a
+               (mkst (name ++ repeat_byte 32 (depth - zlen name) ++
+                      (add_prefix (l0 ++ joined 10 ls) (repeat_byte 32 depth) ++ [10]) ++ post) o e ap (fr :: k)) =
+             (Ok (upd_fields a (add_extra (a_fields a) name (l0 ++ joined 10 ls)), None), s') /\ rest s' = post /\ stk s' = fr :: k.
+Proof.
+  intros Hne Hup Hd H0 Hls Hp. unfold p_extra, sub_of.
+  destruct (field_name_word_reads name depth ((add_prefix (l0 ++ joined 10 ls) (repeat_byte 32 depth) ++ [10]) ++ post) o e ap fr k Hne Hup Hd)
+    as (o1 & e1 & H1).
+  destruct (field_body_roundtrip depth l0 ls post o1 e1 (ap + depth) (fr :: k) H0 Hls Hp) as (s' & E & R & S).
+  assert (Inner : (n <-- try (field_name_parser (pWord is_upper) depth);;;
+                   match n with
+                   | (Some (name0, _), _) => v <-- field_body_parser depth 10;;; ret (upd_fields a (add_extra (a_fields a) name0 v))
+                   | (None, _) => fail EExtra
+                   end)
+                  (mkst (name ++ repeat_byte 32 (depth - zlen name) ++
+                         (add_prefix (l0 ++ joined 10 ls) (repeat_byte 32 depth) ++ [10]) ++ post) o e ap (fr :: k))
+                  = (Ok (upd_fields a (add_extra (a_fields a) name (l0 ++ joined 10 ls))), s')).
+  { rewrite (bind_ok _ _ _ (Some (name, 0), EOther) _ (try_ok _ _ _ _ H1)). unfold field_body_parser.
+    rewrite (bind_ok _ _ _ (l0 ++ joined 10 ls) s') by (rewrite (bind_ok _ _ _ _ _ E); reflexivity). reflexivity. }
+  rewrite (bind_ok _ _ _ (Some (upd_fields a (add_extra (a_fields a) name (l0 ++ joined 10 ls))), EOther) _ (try_ok _ _ _ _ Inner)).
+  exists s'. split; [reflexivity|split; assumption].
 Qed.
